@@ -597,6 +597,11 @@ func (k *Key) MarshalCBOR() ([]byte, error) {
 
 // UnmarshalCBOR decodes a COSE_Key object into Key.
 func (k *Key) UnmarshalCBOR(data []byte) error {
+	// A COSE_Key is a map. The CBOR decoder looks through tags when it decodes
+	// into a Go map, so a tagged item has to be refused here.
+	if len(data) > 0 && data[0]>>5 == 6 { // major type 6: tag
+		return errors.New("cbor: require map type")
+	}
 	var tmp map[any]any
 	if err := decMode.Unmarshal(data, &tmp); err != nil {
 		return err
